@@ -294,6 +294,108 @@ Section RunsProofs.
       [rewrite E, E'; reflexivity | unfold zlen in Hx; lia].
   Qed.
 
+
+  (* ---- structure of an ordered, unmergeable segment list (used for the refinement) ------- *)
+
+  Lemma ordered_in lo hi rs l r a : ordered lo hi rs -> In (l, r, a) rs -> lo <= l /\ l < r /\ r <= hi.
+  Proof.
+    revert lo; induction rs as [|[[l1 r1] a1] t IH]; intros lo O H; [contradiction|].
+    simpl in O. destruct O as (A1 & A2 & A3). destruct H as [H|H].
+    - inversion H; subst. pose proof (ordered_le _ _ _ A3). lia.
+    - destruct (IH r1 A3 H) as (B1 & B2 & B3). lia.
+  Qed.
+
+  Lemma lookup_in x rs a : lookup x rs = Some a -> exists l r, In (l, r, a) rs /\ l <= x < r.
+  Proof.
+    induction rs as [|[[l1 r1] a1] t IH]; simpl; intros H; [discriminate|].
+    destruct ((l1 <=? x) && (x <? r1)) eqn:E.
+    - inversion H; subst. apply andb_true_iff in E as [E1 E2]. apply Z.leb_le in E1. apply Z.ltb_lt in E2.
+      exists l1, r1. split; [left; reflexivity | lia].
+    - destruct (IH H) as (l & r & Hin & Hx). exists l, r. split; [right; exact Hin | exact Hx].
+  Qed.
+
+  Lemma in_lookup lo hi rs l r a x : ordered lo hi rs -> In (l, r, a) rs -> l <= x < r -> lookup x rs = Some a.
+  Proof.
+    revert lo; induction rs as [|[[l1 r1] a1] t IH]; intros lo O H Hx; [contradiction|].
+    simpl in O. destruct O as (A1 & A2 & A3). destruct H as [H|H].
+    - inversion H; subst. apply lookup_head. exact Hx.
+    - destruct (ordered_in _ _ _ _ _ _ A3 H) as (B1 & _). rewrite lookup_skip by lia. eapply IH; eauto.
+  Qed.
+
+  (* a segment extends over the next position if that position carries the same label *)
+  Lemma run_ext_right : forall rs lo hi l r a x,
+    ordered lo hi rs -> no_merge rs -> In (l, r, a) rs -> l <= x < r ->
+    lookup (x + 1) rs = Some a -> x + 1 < r.
+  Proof.
+    induction rs as [|[[l1 r1] a1] t IH]; intros lo hi l r a x O N H Hx Lk; [contradiction|].
+    pose proof O as O'. simpl in O. destruct O as (A1 & A2 & A3). destruct H as [H|H].
+    - inversion H; subst l1 r1 a1; clear H.
+      destruct (Z_lt_ge_dec (x + 1) r) as [|G]; [assumption|]. exfalso.
+      assert (r = x + 1) by lia. subst r.
+      rewrite lookup_skip in Lk by lia.
+      destruct t as [|[[l2 r2] a2] t']; [discriminate|].
+      simpl in A3. destruct A3 as (B1 & B2 & B3).
+      destruct (Z.eq_dec l2 (x + 1)) as [->|Hne].
+      + rewrite lookup_head in Lk by lia. inversion Lk; subst a2.
+        simpl in N. destruct N as [N _]. rewrite eqb_refl in N. specialize (N eq_refl). discriminate.
+      + rewrite (lookup_below l2 hi) in Lk; [discriminate | | lia]. simpl. repeat split; try lia. exact B3.
+    - destruct (ordered_in _ _ _ _ _ _ A3 H) as (B1 & _).
+      rewrite lookup_skip in Lk by lia.
+      exact (IH r1 hi l r a x A3 (no_merge_tail _ _ N) H Hx Lk).
+  Qed.
+
+  Lemma run_ext_left : forall rs lo hi l r a x,
+    ordered lo hi rs -> no_merge rs -> In (l, r, a) rs -> l <= x < r ->
+    lookup (x - 1) rs = Some a -> l <= x - 1.
+  Proof.
+    induction rs as [|[[l1 r1] a1] t IH]; intros lo hi l r a x O N H Hx Lk; [contradiction|].
+    pose proof O as O'. simpl in O. destruct O as (A1 & A2 & A3). destruct H as [H|H].
+    - inversion H; subst l1 r1 a1; clear H.
+      destruct (Z_le_gt_dec l (x - 1)) as [|G]; [assumption|]. exfalso.
+      assert (l = x) by lia. subst l.
+      rewrite (lookup_below x hi) in Lk; [discriminate | simpl; repeat split; try lia; exact A3 | lia].
+    - destruct (ordered_in _ _ _ _ _ _ A3 H) as (B1 & B2 & B3).
+      destruct (Z_le_gt_dec r1 (x - 1)) as [L|G].
+      + rewrite lookup_skip in Lk by lia.
+        exact (IH r1 hi l r a x A3 (no_merge_tail _ _ N) H Hx Lk).
+      + (* the head covers x-1: then it ends at l = x and abuts our segment, which is next *)
+        destruct (Z_le_gt_dec l (x - 1)) as [|G2]; [assumption|]. exfalso.
+        assert (l = x) by lia. subst l. assert (r1 = x) by lia. subst r1.
+        rewrite lookup_head in Lk by lia. inversion Lk; subst a1.
+        destruct t as [|[[l2 r2] a2] t']; [contradiction|].
+        simpl in A3. destruct A3 as (C1 & C2 & C3).
+        destruct H as [H|H].
+        * inversion H; subst l2 r2 a2. simpl in N. destruct N as [N _]. rewrite eqb_refl in N.
+          specialize (N eq_refl). discriminate.
+        * destruct (ordered_in _ _ _ _ _ _ C3 H) as (D1 & _). lia.
+  Qed.
+
+  (* ... and therefore over every stretch of positions carrying its label *)
+  Lemma run_reach_right rs lo hi l r a x : ordered lo hi rs -> no_merge rs -> In (l, r, a) rs -> l <= x < r ->
+    forall n, (forall z, x <= z <= x + Z.of_nat n -> lookup z rs = Some a) -> x + Z.of_nat n < r.
+  Proof.
+    intros O N H Hx. induction n as [|n IH]; intros Hz; [lia|].
+    assert (IH' : x + Z.of_nat n < r) by (apply IH; intros z Hz'; apply Hz; lia).
+    replace (x + Z.of_nat (S n)) with (x + Z.of_nat n + 1) by lia.
+    apply (run_ext_right rs lo hi l r a (x + Z.of_nat n) O N H); [lia|]. apply Hz. lia.
+  Qed.
+
+  Lemma run_reach_left rs lo hi l r a x : ordered lo hi rs -> no_merge rs -> In (l, r, a) rs -> l <= x < r ->
+    forall n, (forall z, x - Z.of_nat n <= z <= x -> lookup z rs = Some a) -> l <= x - Z.of_nat n.
+  Proof.
+    intros O N H Hx. induction n as [|n IH]; intros Hz; [lia|].
+    assert (IH' : l <= x - Z.of_nat n) by (apply IH; intros z Hz'; apply Hz; lia).
+    replace (x - Z.of_nat (S n)) with (x - Z.of_nat n - 1) by lia.
+    apply (run_ext_left rs lo hi l r a (x - Z.of_nat n) O N H); [lia|]. apply Hz. lia.
+  Qed.
+
+  Lemma ordered_nodup lo hi rs : ordered lo hi rs -> NoDup rs.
+  Proof.
+    revert lo; induction rs as [|[[l1 r1] a1] t IH]; intros lo O; [constructor|].
+    simpl in O. destruct O as (A1 & A2 & A3). constructor; [|eapply IH; eauto].
+    intros H. destruct (ordered_in _ _ _ _ _ _ A3 H) as (B1 & _). lia.
+  Qed.
+
 End RunsProofs.
 
 (* Non-vacuity: a label list with a gap, a label change without a gap and a repeated label. *)
